@@ -55,7 +55,7 @@ def gen_history(seed, long=False):
     with_settings = rng.random() < 0.6
     many = rng.random() < 0.2       # sessions of more than ten steps whose settings change on the way ("10.0" sorts before "2.0")
     # (with the compressing adapter anything else than uniform settings runs into the listed finding: half of those histories are uniform)
-    uniform_case = with_settings and rng.random() < (0.5 if adapter == "compressed" else 0.2)
+    uniform_case = with_settings and rng.random() < (0.7 if adapter == "compressed" else 0.2)
     if uniform_case and adapter == "compressed" and rng.random() < 0.6:
         template = "T2"         # two constants per step
         eqs = ["stockA", "stockB", "move", "gain"]
@@ -123,6 +123,8 @@ def gen_history(seed, long=False):
         # the session runs on a grid of its own (run specs in the begin-session settings that differ from the scenario's):
         # a restored session continues on THAT grid
         rs_ = rng.choice([{"dt": 0.5}, {"starttime": 3.0}, {"starttime": 2.0, "dt": 0.5, "stoptime": 14.0},
+                          # a short session: it reaches its stop time within the history (a crash may fall right before its last step)
+                          {"stoptime": 4.0}, {"stoptime": 3.0},
                           # decimal steps: (0.3 - 0.0) / 0.1 is 2.9999999999999996 in floating point
                           {"starttime": 0.0, "dt": 0.1, "stoptime": 3.0}, {"starttime": 0.0, "dt": 0.2, "stoptime": 6.0}, {"starttime": 2.0, "dt": 0.1, "stoptime": 5.0}])
         for s in streams:
@@ -247,7 +249,7 @@ def plan(tier, verif_seed):
             yield {"overtake": {"adapter": "plain", "k": kk, "second": second}}
     for i in range(len(LONG_CASES)):
         yield {"directed_long": i}
-    nh = 60 if tier == "quick" else 10**9
+    nh = 90 if tier == "quick" else 10**9
     for h in range(nh):
         hseed = derive_seed(verif_seed, PROPERTY, "history", h)
         long = tier == "thorough" and h % 25 == 24
